@@ -383,7 +383,8 @@ def gen_expr(g, sc, t, d):
     if k == "struct":
         fields = dict(g.structs)[t[1]]
         g.use("struct_literal")
-        return ("mk", t[1], [(f, gen_expr(g, sc, ft, max(0, d - 1))) for f, ft in fields])
+        vals = gen_args(g, sc, [ft for _f, ft in fields], max(0, d - 1))
+        return ("mk", t[1], [(f, v) for (f, _ft), v in zip(fields, vals)])
     if k == "enum":
         vs2 = dict(g.enums)[t[1]]
         g.use("enum_value")
@@ -392,10 +393,11 @@ def gen_expr(g, sc, t, d):
         variants = dict(g.unions)[t[1]]
         v, fs = g.pick(variants)
         g.use("union_construct")
-        return ("umk", t[1], v, [(f, gen_expr(g, sc, ft, max(0, d - 1))) for f, ft in fs])
+        vals = gen_args(g, sc, [ft for _f, ft in fs], max(0, d - 1))
+        return ("umk", t[1], v, [(f, x) for (f, _ft), x in zip(fs, vals)])
     if k == "tuple":
         g.use("tuple_literal")
-        return ("tup", [gen_expr(g, sc, x, max(0, d - 1)) for x in t[1]])
+        return ("tup", gen_args(g, sc, list(t[1]), max(0, d - 1)))
     if k == "fn":
         cands = [f["name"] for f in g.funcs if fn_type(f) == t and not f.get("recursive")]
         if cands:
@@ -551,10 +553,7 @@ def gen_int(g, sc, d):
     k = g.i(0, 19)
     if k <= 5:
         op = g.pick(["+", "-", "*"])
-        a = gen_int(g, sc, d - 1)
-        b = gen_int(g, sc, d - 1)
-        if not g.has("wrapping"):
-            a, b = clamp_small(a), clamp_small(b)
+        a, b = gen_args(g, sc, ["int", "int"], d - 1)
         g.use("arith")
         return ("bin", op, a, b, g.style())
     if k == 6 and g.has("divmod"):
@@ -563,7 +562,15 @@ def gen_int(g, sc, d):
         if not g.has("neg_divmod"):
             a = ("bi", "abs", [("bin", "%", a, ("int", 1000003), "p")])
         g.use("divmod")
-        return ("bin", op, a, safe_divisor(g, sc, d - 1), g.style())
+        if has_call(a) and not g.gate("effectful_args"):
+            g.pure += 1
+            try:
+                dv = safe_divisor(g, sc, d - 1)
+            finally:
+                g.pure -= 1
+        else:
+            dv = safe_divisor(g, sc, d - 1)
+        return ("bin", op, a, dv, g.style())
     if k == 7 and g.has("unary"):
         g.use("neg")
         return ("un", "-", gen_int(g, sc, d - 1), g.style())
@@ -624,8 +631,7 @@ def gen_bool(g, sc, d):
     k = g.i(0, 13)
     if k <= 4:
         g.use("cmp_int")
-        a = gen_int(g, sc, d - 1)
-        b = gen_int(g, sc, d - 1)
+        a, b = gen_args(g, sc, ["int", "int"], d - 1)
         if strip_style(a) == strip_style(b):
             if g.gate("self_compare"):
                 g.use("self_compare")
@@ -653,7 +659,8 @@ def gen_bool(g, sc, d):
         return ("bi", g.pick(["str_contains", "str_equals"]), gen_args(g, sc, ["string", "string"], d - 1))
     if k == 10 and g.has("floats"):
         g.use("cmp_float")
-        return ("bin", g.pick(["<", "<=", ">", ">=", "==", "!="]), gen_float(g, sc, d - 1), gen_float(g, sc, d - 1), g.style())
+        a, b = gen_args(g, sc, ["float", "float"], d - 1)
+        return ("bin", g.pick(["<", "<=", ">", ">=", "==", "!="]), a, b, g.style())
     if k == 11 and g.has("functions"):
         c = gen_call(g, sc, "bool", d)
         if c:
@@ -751,7 +758,8 @@ def gen_float(g, sc, d):
     k = g.i(0, 5)
     if k <= 2:
         g.use("float_arith")
-        return ("bin", g.pick(["+", "-", "*"]), gen_float(g, sc, d - 1), gen_float(g, sc, d - 1), g.style())
+        a, b = gen_args(g, sc, ["float", "float"], d - 1)
+        return ("bin", g.pick(["+", "-", "*"]), a, b, g.style())
     if k == 3 and g.has("functions"):
         c = gen_call(g, sc, "float", d)
         if c:
